@@ -391,6 +391,11 @@ bool AnalyserModel::needAcothFunction() const
     return mPimpl->mNeedAcothFunction;
 }
 
+static std::pair<uintptr_t, uintptr_t> equivalentVariablesCacheKey(uintptr_t v1, uintptr_t v2)
+{
+    return (v2 < v1) ? std::make_pair(v2, v1) : std::make_pair(v1, v2);
+}
+
 bool AnalyserModel::areEquivalentVariables(const VariablePtr &variable1,
                                            const VariablePtr &variable2)
 {
@@ -399,20 +404,12 @@ bool AnalyserModel::areEquivalentVariables(const VariablePtr &variable1,
     // means that we can safely cache the result of a call to that utility. In
     // turn, this means that we can speed up any feature (e.g., code generation)
     // that also relies on that utility. When it comes to the key for the cache,
-    // we use the Cantor pairing function with the address of the two variables
-    // as parameters, thus ensuring the uniqueness of the key (see
-    // https://en.wikipedia.org/wiki/Pairing_function#Cantor_pairing_function).
+    // we use the ordered pair of the addresses of the two variables, which is
+    // unique for a given unordered pair of variables (a Cantor pairing of two
+    // addresses does not fit in a uintptr_t, so distinct pairs could collide).
 
-    auto v1 = reinterpret_cast<uintptr_t>(variable1.get());
-    auto v2 = reinterpret_cast<uintptr_t>(variable2.get());
-
-    if (v2 < v1) {
-        v1 += v2;
-        v2 = v1 - v2;
-        v1 = v1 - v2;
-    }
-
-    auto key = ((v1 + v2) * (v1 + v2 + 1) >> 1U) + v2;
+    auto key = equivalentVariablesCacheKey(reinterpret_cast<uintptr_t>(variable1.get()),
+                                           reinterpret_cast<uintptr_t>(variable2.get()));
     auto cacheKey = mPimpl->mCachedEquivalentVariables.find(key);
 
     if (cacheKey != mPimpl->mCachedEquivalentVariables.end()) {
